@@ -592,12 +592,69 @@ func c15RefusalCase(i int) core.Result {
 
 // ---- definitions beyond instruction 2^16
 
-const c15LateCases = 4
+const c15LateCases = 6
 
 // c15LateCase: sessions that are more than 2^16 instructions long before small functions,
 // closures, generators and loops are defined and used: entry points, jump targets and context
 // forks beyond the 16-bit range must work (they are not operands) or be refused.
+// c15LongSession: many small statements one after another, so that jump placeholders are emitted
+// and patched at every position of a code segment that keeps being reallocated as it grows: loops
+// never entered, branches not taken, empty iterators, functions defined and called. Every statement
+// has a closed-form value.
+func c15LongSession(variant int) core.Result {
+	var r core.Result
+	h := &Hist{Flavour: flavour(variant == 0), Notes: "long session: 1200 small statements whose jumps are patched while the code segment grows"}
+	r.NonTrivial = true
+	r.Key = uint64(core.NewHash().Str("long-session").Int(variant))
+	r.Sample = h
+	s := sess.New()
+	repl := variant == 0
+	for k := 0; k < 1200; k++ {
+		var src, want string
+		switch k % 6 {
+		case 0:
+			src, want = fmt.Sprintf("{\nx = %d\nwhile x < 0 {\nx = x + 1\n}\nx\n}", k), fmt.Sprint(k)
+		case 1:
+			src, want = fmt.Sprintf("{\nx = %d\nif x < 0 {\nx = 0 - 1\n}\nx + 1\n}", k), fmt.Sprint(k+1)
+		case 2:
+			src, want = fmt.Sprintf("{\nx = %d\nfor e <- fromto(3, 3) {\nx = 0\n}\nx\n}", k), fmt.Sprint(k)
+		case 3:
+			src, want = fmt.Sprintf("{\nf = (n) -> if n < 0 {\n0\n} else {\nn + %d\n}\nf(1)\n}", k), fmt.Sprint(k+1)
+		case 4:
+			src, want = fmt.Sprintf("{\nx = 0\nfor a, b <- fromto(0, 2), fromto(%d, %d) {\nx = x + b\n}\nx\n}", k, k+2), fmt.Sprint(2*k+1)
+		default:
+			src, want = fmt.Sprintf("{\nx = %d\ni = 0\nwhile i < 2 {\nif i == 5 {\nx = 0\n} else {\nx = x + 1\n}\ni = i + 1\n}\nx\n}", k), fmt.Sprint(k+2)
+		}
+		cs0 := len(s.CS)
+		o := s.Submit(src+"\n", repl)[0]
+		r.Statements++
+		r.Instructions += o.Steps
+		if o.Kind == sess.KPanic && o.Phase == "compile" {
+			r.Inc("refused_at_compile_time", 1)
+			return r
+		}
+		if m := decodeCheck(s, cs0); m != "" {
+			h.add(src)
+			r.Violation = &core.Violation{Clause: "operand-wrapped", Detail: m, History: h}
+			return r
+		}
+		bad := o.Kind != sess.KValue || (repl && o.Val != want)
+		if bad {
+			h.add(src)
+			r.Violation = &core.Violation{Clause: "long-session", Detail: fmt.Sprintf("statement %d of the session (compiled at instruction %d): got %s, want %s\n%s", k+1, cs0, o.Brief(), want, trunc(o.Report, 300)), History: h}
+			return r
+		}
+	}
+	r.Inc("F9.long_session_statements", 1200)
+	r.Inc("accepted_and_equal", 1)
+	r.TraceHash = r.Key
+	return r
+}
+
 func c15LateCase(i int) core.Result {
+	if i >= 4 {
+		return c15LongSession(i - 4)
+	}
 	var r core.Result
 	h := &Hist{Flavour: "repl", Notes: "late-definition case: three functions of about 23000 instructions each come first"}
 	r.NonTrivial = true
